@@ -7,7 +7,7 @@ Script on stdin, one run of `run_io` per line — the same script `harness/comp/
     run <local 0|1> <user 0|1> <foreground 0|1> <answer>…
 
 answer (one per call whose result the C code inspects, in call order; missing answers are `ok`):
-    ok | fail | retry | conn | a:<digits>      digits: one `4` or `6` per addrinfo entry (`a:` = no entry)
+    ok | fail | retry | conn | a:<n>      n: number of addrinfo entries getaddrinfo answers with
 
 Output: one line per call (see `evLine`), then the tables at return
     OPEN <fds|->   REG <fds|->   PEERS <fds|->   HANDLERS term=… int=… pipe=…   AI <n>   RET <r> goahead=<0|1>
@@ -23,8 +23,7 @@ def parseAns (tok : String) : Option Ans :=
   else if tok == "retry" then some .retry
   else if tok == "conn" then some .conn
   else match tok.toList with
-    | 'a' :: ':' :: ds =>
-      if ds.all (fun c => c == '4' || c == '6') then some (.addrs (ds.map (· == '6'))) else none
+    | 'a' :: ':' :: ds => (String.ofList ds).toNat?.map Ans.addrs
     | _ => none
 
 def okName (b : Bool) : String := if b then "ok" else "fail"
